@@ -111,10 +111,13 @@ Post(cj, res) ==
 \cup (IF jsonok THEN Trip("json", want, res.json) ELSE {})
 
 \* ---------------------------------------------------------------- the two TLC passes
-Generate == LET s == SetToSeq(Plain) \o SetToSeq(Fluent)
-            IN JsonSerialize(IOEnv.CASES_FILE, [i \in 1..Len(s) |-> CaseJson(s[i])])
+\* TLC evaluates every constant-level definition when it loads the module, also the one a pass does not use: the judge
+\* pass therefore gets CASES_FILE = "none" (Generate does nothing) and reads the cases from JUDGE_CASES
+Generate == IF IOEnv.CASES_FILE = "none" THEN TRUE ELSE
+            LET s == SetToSeq(Plain) \o SetToSeq(Fluent)
+              IN JsonSerialize(IOEnv.CASES_FILE, [i \in 1..Len(s) |-> CaseJson(s[i])])
 Judge ==
-  LET cs == JsonDeserialize(IOEnv.CASES_FILE)
+  LET cs == JsonDeserialize(IOEnv.JUDGE_CASES)
       rs == JsonDeserialize(IOEnv.RESULTS_FILE)
   IN \A i \in DOMAIN cs :
        LET bad == IF "error" \in DOMAIN rs[i] THEN {"harness_could_not_build"} ELSE Post(cs[i], rs[i])
